@@ -15,6 +15,8 @@ CELLS = [
     ("std-no-uninformed", "std", "G2u", {"maximum_uninformed": 0}),
     ("std-analytic-nonuniform", "std", "G2n", {"analytic_priors": True}),
     ("std-augmented", "std", "G2u", {"flow_proposal_class": "AugmentedFlowProposal"}),
+    ("std-augmented-4-dims", "std", "G2u", {"flow_proposal_class": "AugmentedFlowProposal", "augment_dims": 4}),
+    ("std-augmented-marginalised", "std", "G2u", {"flow_proposal_class": "AugmentedFlowProposal", "augment_dims": 2, "marginalise_augment": True, "n_marg": 20}),
     ("std-maf-logit-t", "std", "G2u", {"flow_config": {"ftype": "maf"}, "reparameterisations": {"x0": "logit", "x1": "logit"}, "shrinkage_expectation": "t"}),
     ("ins-default", "ins", "G2u", {"nlive": 500, "min_samples": 100}),
     ("ins-strict-nonuniform", "ins", "G2n", {"nlive": 500, "min_samples": 100, "strict_threshold": True}),
@@ -37,7 +39,7 @@ CELLS = [
                                                                               "x1": {"reparameterisation": "rescaletobounds", "rescale_bounds": [0.0, 1.0], "prior": "uniform"}}}),
 ]
 QUICK = ["std-default", "std-no-uninformed", "std-analytic-nonuniform", "std-augmented", "std-maf-logit-t", "std-narrow-prior-box-draws", "ins-default", "ins-strict-nonuniform", "ins-no-iid",
-         "ins-constrained-prior"]
+         "ins-constrained-prior", "std-augmented-4-dims", "std-nball"]
 
 
 def calib_worker(case):
